@@ -298,6 +298,10 @@ def check_cli_types(ck, prog):
                     l, r = strip_casts(f[2]), strip_casts(f[3])
                     if mentions(l, ctx.prov, lambda z: z[0] == "call" and (z[1] or "").endswith("::len")) and isinstance(r, tuple) and r[0] == "bin" and r[1] == "Sub" and fold(r[2]) == cap and mentions(r[3], ctx.prov, lambda z: z[0] == "field" and z[2] == "len"):
                         ok = True
+                    # the same test with the sum on the left: self.len + len(s) <= CAP
+                    if isinstance(l, tuple) and l[0] == "bin" and l[1] == "Add" and fold(r) == cap and any(mentions(x, ctx.prov, lambda z: z[0] == "call" and (z[1] or "").endswith("::len")) for x in (l[2], l[3])) and \
+                            any(mentions(x, ctx.prov, lambda z: z[0] == "field" and z[2] == "len") for x in (l[2], l[3])):
+                        ok = True
             ck.ob("C20.2", "copy-under-capacity-test", ok, fn=ws[0]["path"], site=ctx.site(cb), detail="the copy into the 128-byte cause buffer must be dominated by len(s) <= CAP - self.len")
             errs = [b["id"] for b in ws[0]["blocks"] if any(s["k"] == "assign" and s["dst"]["l"] == 0 and s["rv"]["k"] == "agg" and s["rv"].get("variant") == "Err" for s in b["stmts"])]
             ck.ob("C20.2", "overflow-is-an-error", len(errs) >= 1, fn=ws[0]["path"], detail="an oversized cause must make write_str return Err")
